@@ -197,8 +197,13 @@ def go_test(pkgdir, run, overlay, env_extra=None, race=False, timeout=1500, tags
         rc, out = -9, "timeout: " + str(e)
     after = repo_status()
     if after != before:
-        # only e2etest/go.work.sum is ever touched by the go tool; restore it
-        subprocess.run(["git", "-C", REPO, "checkout", "--", "e2etest/go.work.sum"], capture_output=True)
+        # the go tool (-mod=mod) may rewrite go.mod / go.sum / e2etest/go.work.sum; restore those
+        # of them that were clean before this run (never touch anything the caller had edited)
+        dirty_before = set(l[3:] for l in before.splitlines())
+        for l in after.splitlines():
+            f = l[3:]
+            if f in ("go.mod", "go.sum", "e2etest/go.work.sum", "e2etest/go.mod", "e2etest/go.sum") and f not in dirty_before:
+                subprocess.run(["git", "-C", REPO, "checkout", "--", f], capture_output=True)
     log("  go test %s -run %s: rc=%s in %.1fs" % (pkgdir, run, rc, time.time() - t0))
     return rc, out
 
